@@ -102,18 +102,32 @@ REG = {
             "Bounded model checking (Kani/CBMC) of the paired Write/Read primitives of util/serialization: write_X then "
             "read_X returns the same value and consumes exactly the written bytes for bool, u8..usize, usize vectors "
             "(len <= 2), field and extension elements, both Target variants, FRI reduction strategies, FriConfig and "
-            "CircuitConfig, for all values."),
+            "CircuitConfig, for all values; serialize/deserialize of eleven gate types for all parameter values and of eight "
+            "generator types for all valid encodings (family codec_gates); composite proof readers on arbitrary bytes "
+            "(family codec_proof). Engine S family codec: six concrete circuits (arithmetic / random access with bits != "
+            "copies / exponentiation / base-2 splits, a narrow 3-challenge configuration, zero-knowledge, lookup tables over "
+            "several rows, a recursive verifier) are encoded and decoded with the real writers / readers natively: circuit, "
+            "prover, verifier and common data, proof and compressed proof decode to equal values, the digest is unchanged, "
+            "the restored circuit proves and each side accepts the other's proofs (concrete executions, not solver results)."),
         "trusted_base": ["Kani 0.68 / CBMC 6.11 (cadical) model of the compiled code (dev profile, unwinding assertions on)"],
-        "assumptions": ["whole-proof, gate/generator registries and CircuitData round trips are outside (far beyond the model checker's reach)"],
+        "assumptions": ["whole-proof round trips and tag dispatch through dyn Gate under the model checker are outside (measured: no verdict within the limits)",
+                        "the default generator serializer requires an algebraic hasher: Keccak configurations are outside",
+                        "the whole-circuit facts are concrete executions on six circuits"],
     },
     "C18": {
         "families": [("K", "decoders"), ("K", "codec_proof", None, r"\.dec_"), ("S", "plonkv", None, r"\.shape\.")],
         "explanation": (
             "Bounded model checking (Kani/CBMC) of the primitive proof-decoder routines on ARBITRARY byte strings of the "
             "listed lengths: read_bool/u8/u32/usize, read_field, read_hash, read_target return Ok or Err exactly as "
-            "specified and never panic, overflow or index out of bounds (dev profile, debug assertions on)."),
-        "trusted_base": ["Kani 0.68 / CBMC 6.11 (cadical) model of the compiled code (dev profile, unwinding assertions on)"],
-        "assumptions": ["shape validation and whole-proof decoders are not in this run yet",
+            "specified and never panic, overflow or index out of bounds (dev profile, debug assertions on); composite readers "
+            "(opening set, Merkle proof, short whole-proof inputs). Engine S: the real verifier on proofs of altered shape "
+            "(every single-vector length change of a proof value is rejected: symbolic contents on the accept path, natively "
+            "an honest proof; a panic counts as non-rejection); structurally malformed compressed proofs on verify_compressed / "
+            "decompress (18 shapes x 2 entry points) and edited encodings (query-index bit flips of the compressed encoding; "
+            "for the plain encoding all 64 bit flips and 9 boundary values of the public-input count, truncations, sampled "
+            "bit flips): Err, never a panic, nothing but the original statement accepted (concrete structures)."),
+        "trusted_base": ["Kani 0.68 / CBMC 6.11 (cadical) model of the compiled code (dev profile, unwinding assertions on)"] + TB_COMMON,
+        "assumptions": ["whole-proof decoders on fully arbitrary bytes are beyond the model checker; the edited-encoding obligations are concrete executions",
                         "read_usize_vec (unvalidated length prefix) is reachable only from circuit-data decoders, outside C18's proof-decoder scope (DESIGN.md section 7)"],
     },
     "C02": {
@@ -187,9 +201,12 @@ REG = {
             "eval_cross_table_lookup_checks equal reference LogUp / CTL constraint lists on symbolic frames; the prover's "
             "lookup_helper_columns and cross_table_lookup_data outputs satisfy them on every row of small traces (symbolic "
             "cells, symbolic challenge); a looking value / tuple absent from the table gives a non-zero final sum "
-            "(polynomial identity); verify_cross_table_lookups in accept-path mode is sound, complete and pins every input."),
+            "(polynomial identity); verify_cross_table_lookups in accept-path mode is sound, complete and pins every input; "
+            "the total degree of the evaluator's output in the openings and Lagrange selectors does not exceed the declared "
+            "constraint degree for the layouts the prover produces; a looking table repeated non-consecutively gets one "
+            "running sum that satisfies the constraints."),
         "trusted_base": TB_COMMON + ["sample STARK / CTL definitions and reference constraint lists in symf/src/stark.rs (oracles)"],
-        "assumptions": ["multi-table prover/verifier plumbing (CtlCheckVars::from_proof, get_ctl_data) is outside"],
+        "assumptions": ["multi-table verifier plumbing (CtlCheckVars::from_proof, num_ctl_helpers_zs_all, get_ctl_data) is outside"],
     },
     "C11": {
         "families": [("S", "stark", None, r"^C11\.")],
@@ -200,7 +217,8 @@ REG = {
             "CircuitBuilder, their witness generated by the real generate_partial_witness from symbolic inputs, and the "
             "resulting values equal the native evaluators' for all inputs."),
         "trusted_base": TB_COMMON,
-        "assumptions": ["NOT covered: in-circuit hashing, Merkle verification, the recursive challenger, proof-of-work check, variable-degree-bits logic, witness-assignment routines, any outer prove/verify - a check omitted only in those parts of the circuit verifier is missed"],
+        "assumptions": ["in-circuit hashing, Merkle verification, the recursive challenger and the proof-of-work check are NOT decided symbolically; they are exercised by the e2e obligations only: for a Fibonacci STARK under two configurations and a degree-3 lookup STARK, an accepted proof and ~18 single-element corruptions each, verify_stark_proof_circuit is satisfiable (outer prove + verify) exactly when verify_stark_proof accepts (concrete executions)",
+                        "variable-degree-bits logic and cross-table lookups in the recursive verifier are outside"],
     },
     "C08": {
         "families": [("S", "lookup")],
@@ -254,7 +272,7 @@ REG = {
             "witness generated by the real generate_partial_witness from symbolic inputs (proof assigned with "
             "set_proof_with_pis_target)."),
         "trusted_base": TB_COMMON,
-        "assumptions": ["NOT covered: in-circuit hashing, Merkle verification, the recursive challenger / get_challenges, the proof-of-work range check, any outer prove/verify of a recursion circuit: a check omitted only in those parts of the circuit verifier is missed",
+        "assumptions": ["in-circuit hashing, Merkle verification, the recursive challenger / get_challenges and the proof-of-work check are NOT decided symbolically; they are exercised by the e2e obligations only: for two inner configurations, an accepted proof and ~35 single-element corruptions of it (each kind of proof component, verifier data included), the verify_proof circuit is satisfiable (outer prove + verify) exactly when the native verifier accepts (concrete executions)",
                         "assumed: evaluation point != 1 (documented in eval_l_0_circuit), beta not an interpolation point, subgroup_x != opening point"],
     },
     "C20": {
